@@ -20,14 +20,17 @@ PROPS = {
                 "1 in 20 leaves compare anything with anything); 1..3 assignments per rule (arithmetic, string concatenation, literals, field copies; targets: existing fields, new fields under existing objects, new "
                 "top-level names, paths under absent objects). Observed: the parsed Rule structures, every firing with the complete fact store after it (callback of execute_with_callback), cycle / evaluated / fired counters "
                 "or the error. non-trivial = at least one firing",
-        "level_text": "Theorems (Coq, all inputs): the engine's pass loop is a simulation of the documented reading - if each consideration of a rule agrees, the whole run agrees (firing order, facts after each firing, counters) - "
-                "and salience sorting keeps rule lists aligned. The model of the engine (condition evaluation on the parsed Rule, Operator::evaluate, the string-splitting expression evaluator with byte offsets, binary64 "
-                "and exact i64 arithmetic, Facts get/get_nested/set_nested with flat fallback) is compared with the code on every case: parsed rules, every firing's facts, counters. The Coq-defined documented meaning "
-                "(ForwardSpec.den_cond / den on the syntax tree: typed comparisons, null for missing fields, right-hand field references read from the facts, precedence and associativity as a tree) is evaluated against "
-                "the implementation's observations; runs the documentation leaves undefined are counted separately (outside_documented_domain).",
-        "level_note": "Partial: the per-consideration agreement (string-level evaluator = tree-level meaning) is checked by the monitor on every generated case and is being proved case by case (see DESIGN.md); "
-                "the loop simulation is proved. Known finding C01-string-literal-names-a-fact (monitor class 2). Trusted: Coq kernel; model of engine.rs/types.rs/expression.rs/facts.rs after fixes e2ff44b 037343a 20bd893 "
-                "d2e9583 5bcadd0 bde165d b77133a 71658c3; SpecFloat binary64; Base/Num.v decimal parsing (validated against the code on every case); ASCII instances of char::is_alphanumeric; harness; extraction. Axioms: none.",
+        "level_text": "Theorems (Coq, every rule set / fact store / text): (1) evaluate_expression applied to the printed text of ANY well-formed tree applies each operator to the values of exactly its two sub-trees "
+                "(precedence, left associativity, parentheses, negative and string literals recovered from the string by the rightmost-operator split with byte offsets); (2) the operator table: wherever the documented "
+                "comparison is defined, Operator::evaluate returns it; (3) condition evaluation never panics and always yields a boolean; (4) one consideration: whenever the documented meaning of the when-expression and "
+                "of the assignments is defined, the engine fires iff it is true and stores, assignment by assignment, the value each right-hand side has at that moment; (5) whole runs: firing order, facts after each "
+                "firing and counters are those the documented semantics defines, for every rule set satisfying the static (decidable, per-atom) conditions rule_ok. The model is compared with the code on every case "
+                "(parsed rules, every firing's complete facts, counters), and the Coq-defined documented meaning is evaluated against the implementation's observations; evidence counts the cases inside the theorem's "
+                "hypotheses, those only monitored, and runs the documentation leaves undefined.",
+        "level_note": "Trusted: Coq kernel; model of engine.rs / types.rs / expression.rs / facts.rs after fixes e2ff44b 037343a 20bd893 d2e9583 5bcadd0 bde165d b77133a 71658c3; SpecFloat binary64; Base/Num.v decimal parsing "
+                "(validated against the code on every case); ASCII instances of char::is_alphanumeric; the rexile regexes of the GRL parser are not modelled - their output (the parsed Rule) is observed and compared with "
+                "ForwardSpec.compile on every case; harness; extraction. The documented meaning mirrors two lookup orders of the code (exact key before object path inside expressions, the reverse for a condition's "
+                "left-hand field); both agree unless a dotted top-level key shadows an object path. Known finding C01-string-literal-names-a-fact (monitor class 2; the theorems treat such a comparison as undefined). Axioms: none.",
         "trusted_base": ["rexile regexes of grl.rs (rule/when-then/condition splitting) are not modelled: their result is observed (the parsed Rule) and compared with ForwardSpec.compile on every case"],
         "assumptions": ["custom functions, plugins, method calls, retract, accumulate/exists/forall patterns are outside the typed core", "wall-clock timeout disabled; max_cycles default"],
     },
